@@ -680,6 +680,10 @@ class TGen(Gen):
             e["t"] = self.pick([["s", 0], ["e", 0], ["e", 0], ["s", "1/2"], ["e", "1/2"], ["s", 1]] if self.p.temporal_delays else [["s", 0], ["e", 0], ["e", 0]])
             effs.append(e)
             prev.append(f)
+        durfl = [f for f in self.fluents if f.get("nowrite")]
+        if durfl and self.b(0.3):
+            # a duration-relevant fluent that only grows (durations stay positive but change along the plan)
+            effs.append({"kind": "inc", "fl": ["fl", self.pick(durfl)["name"]], "val": ["i", 1], "cond": None, "forall": [], "t": ["e", 0]})
         return {"name": self.name("d"), "params": params, "dur": self.gen_duration(scope), "conds": conds, "effs": effs}
 
     def temporal_problem(self):
